@@ -124,6 +124,7 @@ var simGen atomic.Uint64
 var WaitQuiescent func()
 
 // Active returns the running simulation or nil.
+//
 //go:norace
 func Active() *Sim { return active.Load() }
 
@@ -145,6 +146,7 @@ func goid() uint64 {
 
 // Current returns the calling goroutine's task, or nil when no simulation is
 // active or the caller is not a task of it.
+//
 //go:norace
 func Current() *Task {
 	s := active.Load()
@@ -159,22 +161,27 @@ func Current() *Task {
 }
 
 // Sim returns the simulation the task belongs to.
+//
 //go:norace
 func (t *Task) Sim() *Sim { return t.sim }
 
 // Gen identifies the run (used by seams to discard state of earlier runs).
+//
 //go:norace
 func (s *Sim) Gen() uint64 { return s.gen }
 
 // Now is the simulated time elapsed since the run started.
+//
 //go:norace
 func (s *Sim) Now() time.Duration { return time.Since(s.start) }
 
 // Count adds to a named counter (evidence).
+//
 //go:norace
 func (s *Sim) Count(name string, d int64) { s.counters.add(name, d) }
 
 // Count adds to a counter of the active simulation, if any.
+//
 //go:norace
 func Count(name string, d int64) {
 	if s := active.Load(); s != nil {
@@ -186,6 +193,7 @@ func Count(name string, d int64) {
 
 // Logf appends a line to the run's event log.  Only the token holder or the
 // scheduler may call it.  It never draws a choice and never reads a real clock.
+//
 //go:norace
 func (s *Sim) Logf(format string, a ...interface{}) {
 	line := fmt.Sprintf("%6d %s", s.Steps, fmt.Sprintf(format, a...))
@@ -207,6 +215,7 @@ func (s *Sim) Logf(format string, a ...interface{}) {
 }
 
 // Logf logs to the active simulation when called from one of its tasks.
+//
 //go:norace
 func Logf(format string, a ...interface{}) {
 	if t := Current(); t != nil {
@@ -215,7 +224,8 @@ func Logf(format string, a ...interface{}) {
 }
 
 //go:norace
-func (s *Sim) lock()   { raceOff(); s.mu.Lock() }
+func (s *Sim) lock() { raceOff(); s.mu.Lock() }
+
 //go:norace
 func (s *Sim) unlock() { s.mu.Unlock(); raceOn() }
 
@@ -233,6 +243,7 @@ func (s *Sim) kickSched() {
 func parkForever() { select {} }
 
 // park gives the token up (state must already be set) and waits for a grant.
+//
 //go:norace
 func (t *Task) park() {
 	raceOff()
@@ -247,6 +258,7 @@ func (t *Task) park() {
 }
 
 // Yield is a scheduling point: any ready task may run next.
+//
 //go:norace
 func (t *Task) Yield(label string) {
 	s := t.sim
@@ -258,6 +270,7 @@ func (t *Task) Yield(label string) {
 }
 
 // Block parks the task until another task (or a timer) calls MakeReady.
+//
 //go:norace
 func (t *Task) Block(label string) {
 	s := t.sim
@@ -269,6 +282,7 @@ func (t *Task) Block(label string) {
 }
 
 // BlockUntil is Block with a deadline (zero = none); reports a timeout.
+//
 //go:norace
 func (t *Task) BlockUntil(label string, deadline time.Time) (timedOut bool) {
 	var tm *time.Timer
@@ -303,6 +317,7 @@ func (t *Task) onTimeout(gen uint64) {
 }
 
 // MakeReady moves a waiting task to the ready set.
+//
 //go:norace
 func (s *Sim) MakeReady(t *Task) {
 	s.lock()
@@ -315,6 +330,7 @@ func (s *Sim) MakeReady(t *Task) {
 
 // Pre is the scheduling point before a real, possibly blocking Go operation.
 // It returns the calling task (nil outside a simulation) for Post.
+//
 //go:norace
 func Pre(label string) *Task {
 	t := Current()
@@ -327,6 +343,7 @@ func Pre(label string) *Task {
 
 // Post re-acquires the token after a real operation if it was revoked while
 // the task was blocked inside it.
+//
 //go:norace
 func Post(t *Task) {
 	if t == nil {
@@ -348,6 +365,7 @@ func Post(t *Task) {
 }
 
 // Go starts f as a new task.  Outside a simulation it is a plain go statement.
+//
 //go:norace
 func Go(name string, f func()) *Task {
 	cur := Current()
@@ -410,6 +428,7 @@ func (s *Sim) taskExit(t *Task, id uint64) {
 }
 
 // Join blocks the calling task until t has ended.
+//
 //go:norace
 func (t *Task) Join(other *Task) {
 	s := t.sim
@@ -430,6 +449,7 @@ func (t *Task) Join(other *Task) {
 
 // JoinTimeout waits for other to end, at most d of simulated time; reports
 // whether it ended.
+//
 //go:norace
 func (t *Task) JoinTimeout(other *Task, d time.Duration) bool {
 	s := t.sim
@@ -451,6 +471,7 @@ func (t *Task) JoinTimeout(other *Task, d time.Duration) bool {
 }
 
 // Done reports whether the task has ended.
+//
 //go:norace
 func (t *Task) Done() bool {
 	t.sim.lock()
@@ -460,6 +481,7 @@ func (t *Task) Done() bool {
 
 // Quiesce parks the calling task until no other task is ready to run: every
 // other task is finished, waiting, or blocked on a timer that has not fired.
+//
 //go:norace
 func (t *Task) Quiesce() {
 	t.low = true
@@ -468,6 +490,7 @@ func (t *Task) Quiesce() {
 }
 
 // Sleep is time.Sleep as a scheduling point.
+//
 //go:norace
 func Sleep(d time.Duration) {
 	t := Pre("sleep")
@@ -499,6 +522,7 @@ var jumpTable = []time.Duration{
 }
 
 // New prepares a simulation (call inside the bubble) without starting it.
+//
 //go:norace
 func New(cfg Config, S *Choices) *Sim {
 	if cfg.MaxSteps == 0 {
@@ -534,6 +558,7 @@ func New(cfg Config, S *Choices) *Sim {
 // has finished, a task crashed, or a budget ran out.  It must be called from
 // the bubble's root goroutine.  On a deadlock it never returns (synctest
 // panics in the goroutine that called synctest.Test); use Snapshot then.
+//
 //go:norace
 func (s *Sim) Run(mainFn func(t *Task)) *Result {
 	active.Store(s)
@@ -636,6 +661,7 @@ func (s *Sim) before(a, b *Task) bool {
 }
 
 // policyPick is the generate-mode scheduling policy.
+//
 //go:norace
 func (s *Sim) policyPick(ready []*Task) int {
 	c := s.S
@@ -662,6 +688,7 @@ func (s *Sim) policyPick(ready []*Task) int {
 
 // Snapshot builds the result from the current state; safe once every task is
 // blocked (after Run returned or after synctest reported a deadlock).
+//
 //go:norace
 func (s *Sim) Snapshot() *Result {
 	s.lock()
@@ -681,6 +708,7 @@ func (s *Sim) Snapshot() *Result {
 }
 
 // MarkDeadlock records that synctest found every goroutine blocked.
+//
 //go:norace
 func (s *Sim) MarkDeadlock() {
 	s.lock()
@@ -693,10 +721,12 @@ func (s *Sim) MarkDeadlock() {
 }
 
 // MainDone reports whether the main task returned.
+//
 //go:norace
 func (s *Sim) MainDone() bool { return s.mainDone }
 
 // TaskDump lists all tasks with their states (diagnostics).
+//
 //go:norace
 func (s *Sim) TaskDump() string {
 	s.lock()
